@@ -213,16 +213,14 @@ def getter_accepts(ctx):
 
 
 def fields_read(ctx, b):
-    """field names a rule function looks at: [(name, how)] with how = 'contains_key' | 'get' | getter name"""
+    """field names a rule function looks at: [(name, how, terminator)] with how = 'contains_key' | 'get' | getter name.
+    Calls written in closures of b or in helpers b delegates to count (arguments resolved into b's terms)."""
     out = []
-    for bid, t in b.calls():
-        c = t.get('callee')
-        if not c:
-            continue
-        path = c['path']
-        args = [b.expr(a) for a in t['args']]
+    fields_names = {'fields', str(b.arg_names.get(3))} if b.argc >= 3 else {'fields'}
+    for hb, t, args in deep_calls(ctx, b, r'BTreeMap::<.*>::(contains_key|get)$|^tokinizer::tools::get_', depth=2, skip=r'^tokinizer::tools::|^tools::'):
+        path = t['callee']['path']
         strs = [const_str(a) for a in args]
-        on_fields = any(render(a) == 'fields' for a in args)
+        on_fields = any(render(a) in fields_names for a in args)
         if not on_fields:
             continue
         lit = [s for s in strs if s is not None]
@@ -293,7 +291,7 @@ def _closure_sites(facts, parent):
     return out
 
 
-def deep_calls(ctx, root, rx, depth=2):
+def deep_calls(ctx, root, rx, depth=2, skip=None):
     """[(body where the call is written, terminator, [argument expressions resolved into root's terms])] for calls matching
     `rx` in root, in the closures root creates, and in crate-local helpers called directly from root (to `depth`)"""
     from .facts import subst_args
@@ -310,7 +308,7 @@ def deep_calls(ctx, root, rx, depth=2):
                 args = [subst_args(a, subst) for a in args]
             if re.search(rx, c['path']):
                 out.append((body, t, args))
-            if d > 0 and c.get('local') and c['path'] in facts.bodies and c['path'] not in seen:
+            if d > 0 and c.get('local') and c['path'] in facts.bodies and c['path'] not in seen and not (skip and re.search(skip, c['path'])):
                 hb = facts.bodies[c['path']]
                 if hb.kind in ('fn', 'method') and hb.file.startswith('src/') and len(args) == hb.argc and (ctx.cg.owner_step(hb.path) is not None or (len(hb.blocks) <= 60 and not re.search(r' as .*>::', hb.path) and hb.file == body.file)):
                     visit(hb, args, d - 1, seen | {c['path']})
